@@ -22,6 +22,17 @@
              | F!<T|F>!<i,j,..|->             sel = las[[i, j, ..]] (numpy rule for negative entries); go on with sel (T) or with las (F)
              | K                              another LasData with the same content
      -> fresh=T|F <step0>;<step>;... <other live objects, in order of appearance, joined by # ; or ->
+   hist5 <same arguments as hist3> [<initial header point count>]   a history of the CALLER (cworld); further ops
+             | V!<T|F>!<vlrs or ->            the VLR list of the current LasData becomes this list: through the vlrs setter (T: it
+                                              synchronises) or in place (F)
+             | H!<n>                          header.point_count = n
+             | G!<i,j,..|->!<n|->             LasData(header', points[[i, j, ..]]) without update_header; the header counts n points
+                                              (- : it keeps the count it has); the history goes on with it
+             | Y!<edim>                       the caller makes a params object
+             | Z!<k>!<edim>                   the caller changes its k-th params object
+             | Q!<k,l,..>                     add_extra_dims of the caller's params objects k, l, ..
+             several tokens joined by & make ONE step (the state after the last one is printed; the outcome is the first error)
+     -> fresh=T|F <step0>;<step>;... <other live objects>   step = ok|err:E @ <state> @ <header point count>
    eb_enc <edim>          -> ok x<192 bytes> | err E
    eb_dec <x bytes>       -> ok <edim> | err E *)
 open Model
@@ -112,6 +123,15 @@ let wop_of_tok t =
   | ["F"; b; idx] -> WSelect (b = "T", zlist_of_tok idx)
   | ["K"] -> WCopy
   | _ -> WOp (op_of_tok t)
+let cop_of_tok t = match String.split_on_char '!' t with
+  | ["V"; b; vl] -> CEditVlrs (vlrs_of_tok vl, b = "T")
+  | ["H"; n] -> CSetCount (z_of_string n)
+  | ["G"; idx; "-"] -> CRewrap (zlist_of_tok idx, None)
+  | ["G"; idx; n] -> CRewrap (zlist_of_tok idx, Some (z_of_string n))
+  | ["Y"; d] -> CNewParam (edim_of_tok d)
+  | ["Z"; k; d] -> CSetParam (nat_of_int (int_of_string k), edim_of_tok d)
+  | ["Q"; ks] -> CAddParams (List.map (fun k -> nat_of_int (int_of_string k)) (split_on ',' ks))
+  | _ -> CW (wop_of_tok t)
 let tok_of_state st =
   let fields = List.map (fun d ->
       let vals = List.concat_map (fun r -> match field_of d.ed_name r with Some b -> b | None -> []) st.st_recs in
@@ -166,6 +186,30 @@ let dispatch cmd a =
        "fresh=" ^ (if fresh then "T" else "F") ^ " " ^
        String.concat ";" (("ok@" ^ tok_of_state s0) :: List.map (fun (w, r) -> unit_res r ^ "@" ^ tok_of_state w.w_cur) steps)
        ^ " " ^ (if last.w_others = [] then "-" else String.concat "#" (List.map tok_of_state last.w_others)))
+  | "hist5" ->
+    let fmt = z_of_string a.(0) in
+    let ex = List.map edim_of_tok (split_on '+' a.(1)) in
+    let recs = values_of (int_of_string a.(2)) a.(3) in
+    let vl = vlrs_of_tok a.(4) in
+    let eb_last = a.(5) = "T" in
+    let groups = if Array.length a < 7 then [] else
+        List.map (fun g -> List.map cop_of_tok (String.split_on_char '&' g)) (split_on ';' a.(6)) in
+    (match init_ex fmt ex recs vl eb_last with
+     | Err e -> "fresh=T err:" ^ err_name e ^ " -"
+     | Ok s0 ->
+       let cnt0 = if Array.length a > 7 then z_of_string a.(7) else z_of_int (List.length s0.st_recs) in
+       let c0 = { cw_w = { w_cur = s0; w_others = [] }; cw_count = cnt0; cw_dirty = false; cw_params = [] } in
+       let fresh = cops_okb c0 (List.concat groups) in
+       let show c r = unit_res r ^ "@" ^ tok_of_state c.cw_w.w_cur ^ "@" ^ string_of_z c.cw_count in
+       let rec go c gs acc = match gs with
+         | [] -> (c, List.rev acc)
+         | g :: rest ->
+           let (c', r) = List.fold_left (fun (c, r) o -> let (c2, r2) = cstep c o in (c2, (match r with Ok _ -> r2 | Err _ -> r))) (c, Ok ()) g in
+           go c' rest (show c' r :: acc) in
+       let (last, steps) = go c0 groups [] in
+       "fresh=" ^ (if fresh then "T" else "F") ^ " " ^
+       String.concat ";" (show c0 (Ok ()) :: steps)
+       ^ " " ^ (if last.cw_w.w_others = [] then "-" else String.concat "#" (List.map tok_of_state last.cw_w.w_others)))
   | "eb_enc" -> res tok_of_bytes (enc_eb (edim_of_tok a.(0)))
   | "eb_dec" -> res tok_of_edim (dec_eb (bytes_of_tok a.(0)))
   | "std_names" -> String.concat "," (List.map tok_of_bytes (std_names (z_of_string a.(0))))
